@@ -8,6 +8,8 @@
     step is compared with the specification's (difference = drift, not an alarm).
  3. the event log of every execution is validated by TLC against the monitor EraseMon (alarm = rejection, twice).
  4. memory events (ASan/UBSan/terminate/crash) are alarms: the statement is about lifetime.
+ 4b. type_erased_stream: ErasedStream.tla (wrapped stream and erased wrapper in lock step, wrapper steps as in the header) ->
+    consumer scripts -> driver_tes.cpp runs each on a harness stream directly and through type_erase<Val>() -> ErasedStreamMon.
  5. the seeded design errors of AnyObject.tla (Bug constant) must violate the invariants (the invariants are not vacuous)."""
 import collections, glob, json, os, shutil, sys, threading, time
 
@@ -150,8 +152,28 @@ def run(ctx):
         except Exception as ex:          # noqa
             bugres[bug] = ex
 
+    tes = {}
+
+    def tes_mc():        # type_erased_stream: ErasedStream.tla (two instances in lock step) + its seeded design error
+        try:
+            ep = os.path.join(ctx.work, "edges_tes")
+            tes["mc"] = vlib.model_check(ctx, "erase", "ErasedStreamMC", cfg="ErasedStreamMC%s.cfg" % suffix, env={"EDGES": ep}, workers=1, timeout=1500, xmx="2g")
+            tes["edges"] = ep
+            tes["bug"] = vlib.tlc(os.path.join(ctx.work, "tlc"), os.path.join(vlib.VERIF, "spec", "erase"), "ErasedStreamMC", cfg="ErasedStreamBug_fwdRef.cfg",
+                                  env={"EDGES": os.path.join(ctx.work, "bug_edges_tes")}, workers=1, timeout=600, xmx="2g")
+        except Exception as ex:          # noqa
+            tes["err"] = ex
+
+    def tes_build():
+        try:
+            tes["exe"] = vlib.build(ctx, "erase_tes_driver", [os.path.join(HERE, "driver_tes.cpp")],
+                                    lib=["inplace_stop_token.cpp", "async_stack.cpp", "exception.cpp"], opt="-O0")
+        except Exception as ex:          # noqa
+            tes["err"] = ex
+
     t0 = time.time()
-    ths = [threading.Thread(target=mc, args=g) for g in GROUPS] + [threading.Thread(target=mcbugs), threading.Thread(target=build)]
+    ths = [threading.Thread(target=mc, args=g) for g in GROUPS] + [threading.Thread(target=mcbugs), threading.Thread(target=build),
+                                                                     threading.Thread(target=tes_mc), threading.Thread(target=tes_build)]
     for t in ths:
         t.start()
     for t in ths:
@@ -275,8 +297,30 @@ def run(ctx):
         except Exception as ex:      # noqa
             vres[i] = ex
 
+    def tes_run():
+        try:
+            if "err" in tes:
+                raise tes["err"]
+            if tes["bug"]["kind"] != "invariant":
+                raise vlib.Broken("seeded design error fwdRef is not detected by the invariants of ErasedStream.tla (%s)" % tes["bug"]["kind"])
+            scripts, nedges_t, ncfg = tes_scripts(tes["edges"], ctx.rng, 100 if ctx.quick else 4000)
+            tcap = 900 if ctx.quick else 20000
+            if len(scripts) > tcap:
+                ctx.rng.shuffle(scripts)
+                scripts = scripts[:tcap]
+            sp = os.path.join(ctx.work, "tes_scripts.ndjson")
+            with open(sp, "w") as f:
+                for i, b in enumerate(scripts):
+                    f.write(json.dumps(dict(b=i, typed=i % 2, **b)) + "\n")
+            lp = os.path.join(ctx.work, "tes_log.ndjson")
+            sums, deaths = vlib.run_batches(ctx, tes["exe"], ["--behaviours", sp], len(scripts), lp, timeout=1500, max_deaths=10)
+            nv, rejected = vlib.validate_batched(ctx, "erase", "ErasedStreamMon", lp, chunk_events=60000)
+            tes["res"] = (scripts, nedges_t, ncfg, sums, deaths, nv, rejected, lp)
+        except Exception as ex:          # noqa
+            tes["err"] = ex
+
     t0 = time.time()
-    ths = [threading.Thread(target=validate, args=(i,)) for i in sorted(outs)]
+    ths = [threading.Thread(target=validate, args=(i,)) for i in sorted(outs)] + [threading.Thread(target=tes_run)]
     for t in ths:
         t.start()
     for t in ths:
@@ -307,6 +351,47 @@ def run(ctx):
     ex = vlib.split_executions(outs[sorted(outs)[0]][2]) if outs else []
     if ex:
         rep.sample(dict(kind="recorded-trace", events=[json.loads(x) for x in ex[len(ex) // 2][1][:40]]))
+    # ---- 4b. type_erased_stream
+    if "err" in tes:
+        raise tes["err"]
+    scripts, nedges_t, ncfg, sums, deaths, nv, rejected, lp = tes["res"]
+
+    def sdesc(b):
+        c = b["cfg"]
+        return "stream(n=%d,%s,%s,end=%s,cleanup=%s,%s,token=%s) script %s" % (
+            c["n"], "value stored in the operation" if c["kind"] == "opval" else "temporary value", c["tm"], c["end"], c["cl"],
+            "reacts to stop" if c["reacts"] else "ignores stop", c["tok"], "".join(b["script"]))
+    rep.evaluations += 2 * sum(s_["ran"] for s_ in sums)
+    for s_ in sums:
+        rep.drift += s_["drift"]
+        if s_.get("first_drift"):
+            rep.note("type_erased_stream drift: %s" % s_["first_drift"])
+    for b in scripts:
+        rep.distinct.add(hash(("tes", json.dumps(b["cfg"], sort_keys=True), tuple(b["script"]))))
+    for d in deaths:
+        b = scripts[d["x"]] if d["x"] < len(scripts) else None
+        rep.violation(dict(engine="erase", part="type_erased_stream", event=d["event"], stream=(b or {}).get("cfg"), script=(b or {}).get("script"),
+                           asan=d.get("asan"), frame=d.get("frame"), where=d.get("where"),
+                           what="%s while iterating type_erase<Val>(%s): %s %s" % (d["event"], sdesc(b) if b else "?", d.get("asan", ""), d.get("frame", "")),
+                           detail=d.get("stderr_tail")))
+    for rj in rejected:
+        b = scripts[rj["x"]] if rj.get("x") is not None and rj["x"] < len(scripts) else None
+        pre = rj.get("prefix") or 0
+        nxt = rj["events"][pre] if pre < len(rj["events"]) else None
+        mode = None
+        for e in rj["events"][:pre + 1]:
+            if e.get("e") == "Run":
+                mode = e.get("mode")
+        rep.violation(dict(engine="erase", part="type_erased_stream", event="MonitorReject", monitor="ErasedStreamMon", stream=(b or {}).get("cfg"),
+                           script=(b or {}).get("script"), run=mode, rejected_event=nxt,
+                           what="ErasedStreamMon rejects the %s run of %s at event %s %s" % (mode, sdesc(b) if b else "?", pre, json.dumps(nxt)),
+                           events=rj["events"][:160]))
+    rep.note("type_erased_stream: %d stream configurations, %d transitions exported, %d consumer scripts each run on the stream directly and through "
+             "type_erase<Val>(); %d executions validated against ErasedStreamMon; seeded design error fwdRef: TLC reports %s violated"
+             % (ncfg, nedges_t, len(scripts), nv, tes["bug"]["violated"]))
+    if scripts:
+        b = scripts[len(scripts) // 2]
+        rep.sample(dict(kind="tlc-stream-script", stream=b["cfg"], script=b["script"], expect=b["exp"]))
     # ---- 5. the invariants are not vacuous: the seeded design errors of AnyObject.tla must be found by TLC
     for bug in BUGS:
         r = bugres.get(bug)
@@ -315,9 +400,112 @@ def run(ctx):
         if r["kind"] != "invariant":
             raise vlib.Broken("seeded design error %s is not detected by the invariants of AnyObject.tla (%s)\n%s" % (bug, r["kind"], r["out"][-1500:]))
         rep.note("seeded design error %s in the specification: TLC reports %s violated (%d states)" % (bug, r["violated"], r["distinct"]))
+    rep.rule("type_erased_stream: every consumer script (edge cover of the ErasedStream graph + random walks) counts as two executions "
+             "(stream used directly / through type_erase)")
     rep.rule("executions = operation histories (edge cover of the TLC state graph + seeded random walks) replayed on the real "
              "basic_any_object<T/F>, any_unique, any_ref, any_scheduler, any_scheduler_ref; distinct_nontrivial = distinct "
              "histories with more than one operation")
+
+
+# ---------------------------------------------------------------------------------------------- type_erased_stream part
+def tes_scripts(prefix, rng, n_random, keep=True):
+    """Consumer scripts from the exported ErasedStream graph: edge-covering walks from every initial state (= stream
+    configuration) to a finished state + seeded random walks.  script = external labels, exp = the plain stream's completions."""
+    files = sorted(glob.glob(prefix + ".*"), key=lambda p: int(p.rsplit(".", 1)[1]))
+    adj = collections.defaultdict(list)
+    targets = set()
+    n = 0
+    for f in files:
+        for l in open(f):
+            l = l.strip()
+            if not l:
+                continue
+            e = json.loads(l)
+            s, t = tuple(e["s"]), tuple(e["t"])
+            adj[s].append((t, e))
+            targets.add(t)
+            n += 1
+        os.remove(f)
+    inits = sorted(s for s in adj if s not in targets)
+    # distance to a finished state (every walk must end with the cleanup completed)
+    rev = collections.defaultdict(list)
+    fin = set()
+    for s, outs in adj.items():
+        for k, (t, e) in enumerate(outs):
+            rev[t].append((s, k))
+            if e["fin"]:
+                fin.add(t)
+    togo = {f: None for f in fin}
+    q = collections.deque(fin)
+    while q:
+        u = q.popleft()
+        for (p, k) in rev.get(u, ()):
+            if p not in togo:
+                togo[p] = k
+                q.append(p)
+
+    def finish(u, walk):
+        while u not in fin and togo.get(u) is not None and len(walk) < 200:
+            k = togo[u]
+            walk.append((u, k))
+            u = adj[u][k][0]
+        return walk
+
+    walks = []
+    covered = set()
+    for i in inits:
+        parent = {i: None}
+        order = [i]
+        q = collections.deque([i])
+        while q:
+            u = q.popleft()
+            for k, (v, e) in enumerate(adj.get(u, ())):
+                if v not in parent:
+                    parent[v] = (u, k)
+                    order.append(v)
+                    q.append(v)
+        for u0 in order:
+            for k0 in range(len(adj.get(u0, ()))):
+                if (u0, k0) in covered:
+                    continue
+                pre = []
+                u = u0
+                while parent[u] is not None:
+                    pre.append(parent[u])
+                    u = parent[u][0]
+                pre.reverse()
+                walk = pre + [(u0, k0)]
+                covered.add((u0, k0))
+                u = adj[u0][k0][0]
+                while u not in fin:
+                    nxt = [k for k in range(len(adj.get(u, ()))) if (u, k) not in covered]
+                    if not nxt:
+                        break
+                    covered.add((u, nxt[0]))
+                    walk.append((u, nxt[0]))
+                    u = adj[u][nxt[0]][0]
+                walks.append(finish(u, walk))
+    for j in range(n_random):
+        u = inits[rng.randrange(len(inits))]
+        walk = []
+        while u not in fin and adj.get(u) and len(walk) < 200:
+            k = rng.randrange(len(adj[u]))
+            walk.append((u, k))
+            u = adj[u][k][0]
+        walks.append(walk)
+    out = []
+    seen = set()
+    for w in walks:
+        es = [adj[a][k][1] for (a, k) in w]
+        if not es or not es[-1]["fin"]:
+            continue
+        script = [e["ext"] for e in es if e["ext"]]
+        key = (json.dumps(es[0]["cfg"], sort_keys=True), tuple(script))
+        if key in seen:
+            continue
+        seen.add(key)
+        out.append(dict(cfg=es[0]["cfg"], script=script, exp=[e["pobs"] for e in es if e["pobs"]["ch"]]))
+    return out, n, len(inits)
 
 
 def opstr(o):
